@@ -9,7 +9,7 @@ from props.C04 import call_results, agg_field_operands, ARMS, SRIR, STORE
 
 META = {
     "explanation_more": "Also (round 5): the transaction union is built in an ordered set (or sorted) so that the stored bytes depend on the set only (C09.converge.tx.union), and an accepted delivery is stored (C09.converge.tx.stored).",
-    "explanation_more": 'Also (round 4): accepted means held — the store rules on failed writes, removal and the completion notice are evaluated here as C09.held.*.',
+    "explanation_more2": 'Also (round 4): accepted means held — the store rules on failed writes, removal and the completion notice are evaluated here as C09.held.*.',
     "explanation": "Decides: (1) the periodic Cmd::Replicate carries the clone of *all* values of record_addresses_ref() — no filter/take/"
                    "retain on the way — and is sent to get_replicate_candidates(self); (2) advertisements are acted on "
                    "(replication_fetcher.add_keys) only behind closest_k_peers.contains(holder) && holder != self; (3) the "
